@@ -125,7 +125,9 @@ impl<'a> Recorder<'a> {
                         let args: Vec<String> = std::env::args().collect();
                         for f in &fails {
                             let slug: String = f.sig.chars().map(|c| if c.is_ascii_alphanumeric() { c } else { '-' }).collect();
-                            let path = std::path::Path::new(&dir).join(format!("{}-{}.json", args.get(2).cloned().unwrap_or_default(), &slug[..slug.len().min(110)]));
+                            // (FNV-1a of the whole signature keeps long signatures with a common prefix apart)
+                            let h = f.sig.bytes().fold(0xcbf29ce484222325u64, |h, b| (h ^ b as u64).wrapping_mul(0x100000001b3));
+                            let path = std::path::Path::new(&dir).join(format!("{}-{}-{h:016x}.json", args.get(2).cloned().unwrap_or_default(), &slug[..slug.len().min(90)]));
                             if !path.exists() {
                                 let mut cj = case();
                                 apply_patch(&mut cj, &f.patch.clone());
